@@ -87,8 +87,13 @@ func NewKeyMap(seed int64, collide bool, models []string) (*KeyMap, error) {
 		long[i] = byte('a' + i%26)
 	}
 
+	// long keys that differ only in their tail (after 1000 common bytes) and only in one byte in the middle
+	long2 := append(append([]byte(nil), long[:1000]...), []byte("-tail-two-0123456789abcdef")...)
+	long3 := append([]byte(nil), long...)
+	long3[700] ^= 0x20
+
 	pool := [][]byte{
-		{}, long, {0x00}, {0x00, 0x00}, {0xFF, 0x00, 0xFF}, []byte("k"), []byte("key"), []byte("key1"),
+		{}, long, long2, long3, {0x00}, {0x00, 0x00}, {0xFF, 0x00, 0xFF}, []byte("k"), []byte("key"), []byte("key1"),
 		[]byte("key\x00"), []byte("longer-key"), []byte("k2"), []byte("\xff\xfe"), []byte("some/other:key"),
 		[]byte("кириллица"), []byte("key-with-a-much-longer-name-0123456789"),
 	}
